@@ -615,7 +615,7 @@ def gen_scenario(rng, cfg):
     return {"cfg": cfg, "steps": steps}
 
 
-def patient(client, first=3.0, more=12.0, alive=None):
+def patient(client, first=3.0, more=7.0, alive=None):
     """read one message; a machine under heavy load may be slow, which is not what the property is about: keep
     waiting for the outstanding answer before calling it missing — but not once the request loop is known to be dead"""
     t_end = time.time() + first + more
@@ -675,12 +675,15 @@ class Player:
     def stop(self, kill=False):
         global CURRENT
         threading.settrace(None)
+        self.rec.dispatched.set()
+        if kill:
+            # first: a loop / worker spinning in a handler would make the orderly shutdown below wait for its time-outs
+            kill_other_threads()
         if self.srv is not None:
             with contextlib.suppress(Exception):
                 self.srv.stop()
         self.srv = None
         CURRENT = None
-        self.rec.dispatched.set()
         if kill:
             kill_other_threads()
 
@@ -729,7 +732,7 @@ class Player:
             srv, rec = self.srv, self.rec
             base = self.acct()
         impatient = HANGS[0] >= 2
-        first, more, long = (3.0, 12.0, 8.0) if HANGS[0] < 2 else (2.0, 2.0, 3.0) if HANGS[0] < 5 else (1.0, 1.0, 1.5)
+        first, more, long = (3.0, 7.0, 6.0) if HANGS[0] < 2 else (2.0, 2.0, 3.0) if HANGS[0] < 5 else (1.0, 1.0, 1.5)
         stype = self.cfg["server"]
         self.opened = 1
         w = rd.RawClient(srv.port, timeout=3.0)
